@@ -65,17 +65,19 @@ type failure struct {
 }
 
 type jobResult struct {
-	job      *Job
-	runs     uint64
-	nontriv  map[string]bool // distinct signatures of non-trivial runs
-	stats    map[string]uint64
-	samples  []json.RawMessage
-	failures []failure
-	infra    []string // infrastructure trouble (exit 2)
-	wall     float64
-	pairBits []byte
-	digests  map[uint64]string
-	evlines  map[uint64][]string
+	job       *Job
+	runs      uint64
+	nontriv   map[string]bool // distinct signatures of non-trivial runs
+	stats     map[string]uint64
+	samples   []json.RawMessage
+	failures  []failure
+	infra     []string // infrastructure trouble (exit 2)
+	wall      float64
+	pairBits  []byte
+	siteHits  []byte
+	siteNames []string
+	digests   map[uint64]string
+	evlines   map[uint64][]string
 }
 
 type config struct {
@@ -316,6 +318,24 @@ func runWorker(cfg *config, job *Job, from, to, stride uint64, deadline time.Tim
 			}
 		case strings.HasPrefix(line, "RESTART "):
 			fmt.Sscanf(line[8:], "%d", &restartAfter)
+		case strings.HasPrefix(line, "SITES "):
+			if b, err := hex.DecodeString(line[6:]); err == nil {
+				mu.Lock()
+				if len(jr.siteHits) < len(b) {
+					jr.siteHits = append(jr.siteHits, make([]byte, len(b)-len(jr.siteHits))...)
+				}
+				for i := range b {
+					jr.siteHits[i] |= b[i]
+				}
+				mu.Unlock()
+			}
+		case strings.HasPrefix(line, "SITENAMES "):
+			var names []string
+			if json.Unmarshal([]byte(line[10:]), &names) == nil {
+				mu.Lock()
+				jr.siteNames = names
+				mu.Unlock()
+			}
 		case strings.HasPrefix(line, "PAIRS "):
 			if b, err := hex.DecodeString(line[6:]); err == nil {
 				mu.Lock()
@@ -431,9 +451,18 @@ func classifyRace(text, prop string) (plan.Violation, bool) {
 	if len(funcs) == 0 {
 		return plan.Violation{}, false
 	}
-	kind := "race"
+	// key: the innermost frame of the code under test that is not a BigInt
+	// method (BigInt methods only carry out the access; the function that
+	// chose the shared object is the one above them)
+	key := funcs[0]
+	for _, f := range funcs {
+		if !strings.HasPrefix(f, "(*BigInt).") && !strings.HasPrefix(f, "BigInt.") {
+			key = f
+			break
+		}
+	}
 	detail := trim(text[i:], 6000)
-	return plan.Violation{Property: prop, Class: prop + "/race", Key: funcs[0], Detail: kind + " in " + funcs[0] + "\n" + detail}, true
+	return plan.Violation{Property: prop, Class: prop + "/race", Key: key, Detail: "race in " + key + " (innermost frame " + funcs[0] + ")\n" + detail}, true
 }
 
 // ---------------------------------------------------------------------------
